@@ -3,7 +3,7 @@
 (* Exhaustive model of the price oracle (C16): the price table, the feeder *)
 (* registry, block time / height with both expiry rules.  Asset and source *)
 (* names are chosen so that they are prefixes and concatenations of one    *)
-(* another ("ETH" / "ETHZ" / "ETHelys", "ET" ++ "Helys" = "ETH" ++ "elys").*)
+(* another ("ETH" / "ETHZ" / "ETHelys", "ETHe" ++ "lys" = "ETH" ++ "elys").*)
 (* Every action computes its post-state with the operators of              *)
 (* spec/elys/Oracle.tla (the model is the specification executed); TLC     *)
 (*  (a) checks the lookup laws on every reachable table: a lookup never    *)
@@ -111,7 +111,7 @@ Block(dt) ==
 Next ==
   \/ \E a \in Assets, so \in Sources : Feed("feeder", a, so)
   \/ \E f \in {"f2", "u1"} : Feed(f, "ETH", "elys")
-  \/ Feed2("ETH", "elys", "ET", "Helys") \/ Feed2("ET", "Helys", "ETH", "elys") \/ Feed2("ETHZ", "band", "ETH", "x")
+  \/ Feed2("ETH", "elys", "ETHe", "lys") \/ Feed2("ETHe", "lys", "ETH", "elys") \/ Feed2("ETHZ", "band", "ETH", "x")
   \/ \E f \in People, b \in BOOLEAN : SetFeeder(f, b)
   \/ DelFeeder("f2") \/ DelFeeder("u1")
   \/ \E f \in {"f2", "u1"} : GovAdd(f)
